@@ -170,7 +170,8 @@ def all_spellings(base, thorough):
                 compact = [json.dumps(json.loads(t), separators=(",", ":")) if t[:1] in "{[" else t for t in toks]
                 if all(not any(c.isspace() for c in t) for t in compact):
                     out.append((tag + "/string", "string", compact))
-            if thorough:
+            if thorough and not any(t.startswith("-") for t in toks):
+                # (argparse takes a token starting with '-' for an option: not a property of the query language)
                 out.append((tag + "/cli", "cli", toks))
         return ref, out
     _, tag, atoms_ = base
@@ -212,7 +213,7 @@ def all_spellings(base, thorough):
             toks += ts[0][1]
         if toks and len(toks) == 2 * len(atoms_):
             out.append(("sibling/tokens", "tokens", toks))
-            if thorough:
+            if thorough and not any(t.startswith("-") for t in toks):
                 out.append(("sibling/tokens/cli", "cli", toks))
     return ref, out
 
@@ -338,7 +339,7 @@ def eval_cursor(item):
 
 
 # ------------------------------------------------------------------ groupby
-GROUP_KEYS = ["a", "sp.a", "b.c", "sp.b.c", "doc.x", "doc.n.m", "b", "doc.n", ["a", "doc.x"], ["sp.a", "b.c"],
+GROUP_KEYS = ["spin.up", "sp.docs.k", "a", "sp.a", "b.c", "sp.b.c", "doc.x", "doc.n.m", "b", "doc.n", ["a", "doc.x"], ["sp.a", "b.c"],
               ["doc.x", "doc.n.m"], ["doc.x", "a"], ["a"], None, "callable:a", "callable:id"]
 GROUP_DEFAULTS = [None, -1, "zz"]
 GROUP_FILTERS = [None, {"a": {"$exists": True}}, {"doc.x": {"$exists": True}}, {"a": {"$lt": 3}}]
